@@ -68,11 +68,13 @@ Qed.
 (* ---------------------------------------------------------------- one step of the context *)
 Lemma ctx_first_cases : forall r,
   (exists id s e, placed_on id r s e /\ ctx_first r = RSome id s e)
-  \/ ((forall id s e, ~ placed_on id r s e) /\ ctx_first r = RNone).
+  \/ ((forall id s e, ~ placed_on id r s e) /\ hr_ref r <> None /\ ctx_first r = RMany)
+  \/ (hr_ref r = None /\ ctx_first r = RNone).
 Proof.
   intros r. unfold ctx_first, placed_on, ctx_some.
-  destruct (hr_ref r) as [id |]; destruct (hr_start r) as [s |]; destruct (rec_end r) as [e |];
-    try (right; split; [intros i s' e' [H1 [H2 H3]]; congruence | reflexivity]).
+  destruct (hr_ref r) as [id |]; [|right; right; split; reflexivity].
+  destruct (hr_start r) as [s |]; destruct (rec_end r) as [e |];
+    try (right; left; split; [intros i s' e' [H1 [H2 H3]]; congruence | split; [discriminate|reflexivity]]).
   left. exists id, s, e. auto.
 Qed.
 
@@ -174,7 +176,8 @@ Theorem get_ctx_some_covers : forall rs id s e,
 Proof.
   intros rs id s e Hg. destruct rs as [| r tl]; [discriminate Hg |].
   cbn [get_ctx] in Hg.
-  destruct (ctx_first_cases r) as [[id0 [s0 [e0 [Hp Hf]]]] | [_ Hf]]; rewrite Hf in Hg.
+  destruct (ctx_first_cases r) as [[id0 [s0 [e0 [Hp Hf]]]] | [[_ [_ Hf]] | [_ Hf]]]; rewrite Hf in Hg.
+  2:{ rewrite fold_many in Hg. discriminate Hg. }
   - pose proof (fold_some_inv tl id0 s0 e0) as Hinv. rewrite Hg in Hinv.
     destruct Hinv as [Hid [Hs [He [Hall [Hmin Hmax]]]]]. subst id.
     split; [| split].
@@ -197,38 +200,48 @@ Proof.
   - intros Hall. destruct rs as [| r tl]; [contradiction |].
     inversion Hall as [| r' tl' Hr Htl]; subst. cbn [get_ctx].
     destruct Hr as [rs0 [re0 Hp0]].
-    destruct (ctx_first_cases r) as [[id0 [s0 [e0 [Hp Hf]]]] | [Hnp _]].
+    destruct (ctx_first_cases r) as [[id0 [s0 [e0 [Hp Hf]]]] | [[Hnp _] | [Hnr _]]].
     + destruct (placed_on_fun _ _ _ _ _ _ _ Hp Hp0) as [Hid _]. subst id0. rewrite Hf.
       apply fold_some_complete. assumption.
     + exfalso. exact (Hnp id rs0 re0 Hp0).
+    + exfalso. destruct Hp0 as [Hr0 _]. congruence.
 Qed.
 
-(* exact characterisation of RNone: the FIRST record lacks a reference id, a start or an end, and
-   no LATER record has a reference id.  (A first record with a reference id but no start is
-   treated like an unplaced one; the same record in a later position makes the slice RMany.) *)
+(* exact characterisation of RNone (/repo 21fc9d0): no record of the slice has a reference id.
+   (Before 21fc9d0 a FIRST record with a reference id but no start was treated like an unplaced
+   one and lost its reference id: cram-first-record-reference-without-position-loses-rname.) *)
 Theorem get_ctx_none_iff : forall r tl,
-  get_ctx (r :: tl) = RNone
-  <-> ((forall id s e, ~ placed_on id r s e) /\ Forall (fun r' => hr_ref r' = None) tl).
+  get_ctx (r :: tl) = RNone <-> Forall (fun r' => hr_ref r' = None) (r :: tl).
 Proof.
   intros r tl. cbn [get_ctx]. split.
-  - intros Hg. destruct (ctx_first_cases r) as [[id0 [s0 [e0 [Hp Hf]]]] | [Hnp Hf]];
+  - intros Hg. destruct (ctx_first_cases r) as [[id0 [s0 [e0 [Hp Hf]]]] | [[_ [_ Hf]] | [Hr Hf]]];
       rewrite Hf in Hg.
     + pose proof (fold_some_inv tl id0 s0 e0) as Hinv. rewrite Hg in Hinv. contradiction.
-    + split; [exact Hnp |].
+    + rewrite fold_many in Hg. discriminate Hg.
+    + constructor; [exact Hr |].
       destruct (fold_none_cases tl) as [[Hall _] | [_ Hn]]; [assumption |].
       rewrite Hn in Hg. discriminate Hg.
-  - intros [Hnp Hall]. destruct (ctx_first_cases r) as [[id0 [s0 [e0 [Hp _]]]] | [_ Hf]].
-    + exfalso. exact (Hnp id0 s0 e0 Hp).
+  - intros Hall. inversion Hall as [| r' tl' Hr Htl]; subst.
+    destruct (ctx_first_cases r) as [[id0 [s0 [e0 [Hp _]]]] | [[_ [Hnr _]] | [_ Hf]]].
+    + exfalso. destruct Hp as [Hp _]. congruence.
+    + contradiction.
     + rewrite Hf. destruct (fold_none_cases tl) as [[_ Hn] | [Hex _]]; [assumption |].
       exfalso. apply Exists_exists in Hex. destruct Hex as [x [Hin Hx]].
-      rewrite Forall_forall in Hall. apply Hx. apply Hall. assumption.
+      rewrite Forall_forall in Htl. apply Hx. apply Htl. assumption.
+Qed.
+
+(* a record with a reference id is never in a slice declared unmapped: its reference id is stored *)
+Corollary get_ctx_none_no_reference : forall rs r, get_ctx rs = RNone -> In r rs -> hr_ref r = None.
+Proof.
+  intros rs r Hg Hin. destruct rs as [| r0 tl]; [destruct Hin |].
+  apply get_ctx_none_iff in Hg. rewrite Forall_forall in Hg. now apply Hg.
 Qed.
 
 (* everything else is RMany *)
 Theorem get_ctx_many_iff : forall r tl,
   get_ctx (r :: tl) = RMany
   <-> ((forall id, ~ Forall (fun x => exists rs' re', placed_on id x rs' re') (r :: tl))
-       /\ ~ ((forall id s e, ~ placed_on id r s e) /\ Forall (fun r' => hr_ref r' = None) tl)).
+       /\ ~ Forall (fun r' => hr_ref r' = None) (r :: tl)).
 Proof.
   intros r tl. split.
   - intros Hg. split.
